@@ -72,10 +72,14 @@ bool deleteAndCheck(NifFile& nif, NiShape* s, const std::vector<uint16_t>& del, 
 	auto& hdr = nif.GetHeader();
 	std::string kind = s->GetBlockName();
 	bool skinned = hdr.GetBlock<NiSkinInstance>(s->SkinInstanceRef()) != nullptr;
-	bool partsOkBefore = false;
+	bool partsOkBefore = false, bindOkBefore = false;
 	if (skinned) {
 		auto si = hdr.GetBlock<NiSkinInstance>(s->SkinInstanceRef());
-		if (hdr.GetBlock(si->skinPartitionRef) && hdr.GetBlock(si->dataRef)) partsOkBefore = checkPartitions(nif, s, true).empty();
+		if (hdr.GetBlock(si->skinPartitionRef) && hdr.GetBlock(si->dataRef)) {
+			partsOkBefore = checkPartitions(nif, s, true).empty();
+			// where the partitions' per-vertex bones and weights agree with NiSkinData before the deletion they have to agree afterwards
+			bindOkBefore = partsOkBefore && checkPartitions(nif, s, true, nullptr, false, true).empty();
+		}
 	}
 	NifSegmentationInfo segInf;
 	std::vector<int> segLabels;
@@ -150,8 +154,9 @@ bool deleteAndCheck(NifFile& nif, NiShape* s, const std::vector<uint16_t>& del, 
 	if (partsOkBefore && nvAfter > 0) {
 		// after a deletion the statement only demands valid indices and agreeing counters (a vertex map may keep vertices whose
 		// triangles went away); the exact-map invariant belongs to rebuilt partitions (C10)
-		auto errs = checkPartitions(nif, s, true, nullptr, false);
+		auto errs = checkPartitions(nif, s, true, nullptr, false, bindOkBefore);
 		if (!errs.empty()) return V("partition/" + invClass(errs[0]), kind, w + ": " + errs[0]);
+		if (bindOkBefore) R_stat("deletions_with_partition_binding_checked");
 	}
 	// LOCKEDNORM
 	{
